@@ -156,3 +156,71 @@ def enumerate_history(hist, wd, rng, max_points=None, torn=True, keep_writes=0):
         for r in ex.map(one, ks):
             failures += r
     return len(ks), ntorn[0], failures, len(calls)
+
+
+def enumerate_generic(template, child_args, verify_args, wd, rng, max_points=None, torn=True):
+    """The same enumeration for any child that converts / changes a directory: [template] is copied for every kill point, [child_args(dir)]
+    is the command that is killed, [verify_args(dir)] the command that opens what is left and prints OK or BAD ...
+    Returns (n_points, n_torn, failures, n_calls)."""
+    shutil.rmtree(wd, ignore_errors=True)
+    os.makedirs(wd)
+    d0 = os.path.join(wd, "dry"); shutil.copytree(template, d0)
+    log0 = os.path.join(wd, "dry.log")
+    p = strace(child_args(d0), log0)
+    if p.returncode != 0:
+        raise C.CheckError("child failed without injection: " + p.stdout[-500:])
+    calls = parse_log(log0, d0)
+    occ, nth = {}, []
+    for c in calls:
+        occ[c["call"]] = occ.get(c["call"], 0) + 1
+        nth.append((c["call"], occ[c["call"]]))
+    ks = [k for k in range(2, len(calls) + 1) if calls[k - 2]["mutating"] or (calls[k - 1]["mutating"] and calls[k - 1]["data"] is not None)]
+    if max_points and len(ks) > max_points:
+        rare = [k for k in ks if calls[k - 2]["call"] not in ("write", "openat")]
+        rest = [k for k in ks if k not in rare]
+        ks = sorted(set(rare[:max_points] + rng.sample(rest, max(0, min(len(rest), max_points - len(rare))))))
+    shutil.rmtree(d0, ignore_errors=True)
+    failures, ntorn = [], [0]
+    def check(dv, what):
+        keep = dv + ".keep"
+        shutil.copytree(dv, keep)
+        p = subprocess.run(verify_args(dv), env=ENV, stdout=subprocess.PIPE, stderr=subprocess.STDOUT, text=True, timeout=600)
+        lines = [l for l in p.stdout.strip().split("\n") if l.startswith(("OK", "BAD"))]
+        shutil.rmtree(dv, ignore_errors=True)
+        if p.returncode == 0 and lines and lines[-1].startswith("OK"):
+            shutil.rmtree(keep, ignore_errors=True)
+            return None
+        return {"what": what, "bad": (lines[-1] if lines else "verify crashed: " + p.stdout[-300:]), "image": keep}
+    def one(k):
+        d = os.path.join(wd, "k%d" % k); shutil.copytree(template, d)
+        log = os.path.join(wd, "k%d.log" % k)
+        strace(child_args(d), log, inject=nth[k - 1])
+        cl = parse_log(log, d)
+        last = cl[-1] if cl else None
+        variants = []
+        if torn and last and last["data"] and len(last["data"]) > 1 and last["path"]:
+            n = len(last["data"])
+            for j in sorted(set(j for j in (1, 3, 4, 5, n // 2, n - 1) if 0 < j < n)):
+                dv = os.path.join(wd, "k%dt%d" % (k, j))
+                shutil.copytree(d, dv)
+                rel = os.path.relpath(last["path"], os.path.realpath(d))
+                tp = os.path.join(dv, rel)
+                if last["offset"] is None:
+                    with open(tp, "ab") as f:
+                        f.write(last["data"][:j])
+                else:
+                    with open(tp, "r+b") as f:
+                        f.seek(last["offset"]); f.write(last["data"][:j])
+                variants.append((dv, "torn %s of %s after %d of %d bytes" % (last["call"], rel, j, n)))
+        ntorn[0] += len(variants)
+        res = []
+        for dv, what in [(d, "killed entering call %d: %s" % (k, last["raw"][:140] if last else "?"))] + variants:
+            r = check(dv, what)
+            if r:
+                r["k"] = k
+                res.append(r)
+        return res
+    with ThreadPoolExecutor(C.NCPU) as ex:
+        for r in ex.map(one, ks):
+            failures += r
+    return len(ks), ntorn[0], failures, len(calls)
